@@ -206,15 +206,20 @@ def oracle(ctx):
         if abs(float(vy @ z) - float(va @ z)) > 1e-12:
             ctx.violation("yaw_changes_off_nadir", dict(descr, fx=fx, fy=fy, yaw=yaw), float(vy @ z), float(va @ z), site="ScanGeometry.vectors")
         # sense: positive across-track angle tilts to the right of the velocity, positive along-track backward
+        # sense relative to nadir: forward = velocity component orthogonal to nadir, up = -nadir, right = forward x up
+        fwd = v - float(v @ z) * z
+        fwd = fwd / np.linalg.norm(fwd)
+        right = np.cross(fwd, -z)
         if abs(fy) > 1e-3:
             vb2 = geoloc.ScanGeometry(np.array([[0.0], [abs(fy)]]), np.zeros(1)).vectors(p.reshape(3, 1), v.reshape(3, 1))[:, 0]
-            if float(vb2 @ v) >= 0:
-                ctx.violation("along_track_sense", dict(descr, fy=abs(fy)), float(vb2 @ v), "negative component along the velocity (tilts backward)", site="ScanGeometry.vectors")
+            if float(vb2 @ fwd) >= 0:
+                ctx.violation("along_track_sense", dict(descr, fy=abs(fy)), float(vb2 @ fwd),
+                              "negative component along the forward direction (tilts backward)", site="ScanGeometry.vectors")
         if abs(fx) > 1e-3:
             vr = geoloc.ScanGeometry(np.array([[abs(fx)], [0.0]]), np.zeros(1)).vectors(p.reshape(3, 1), v.reshape(3, 1))[:, 0]
-            rightdir = np.cross(v, p)     # v x r points to the right of the motion seen from above (r up)
-            if float(vr @ rightdir) <= 0:
-                ctx.violation("across_track_sense", dict(descr, fx=abs(fx)), float(vr @ rightdir), "positive component to the right of the velocity", site="ScanGeometry.vectors")
+            if float(vr @ right) <= 0:
+                ctx.violation("across_track_sense", dict(descr, fx=abs(fx)), float(vr @ right),
+                              "positive component to the right of the velocity", site="ScanGeometry.vectors")
         # lon/lat/alt of the pixels: terminates, alt within 10 m of zero on hits, NaN exactly on misses
         try:
             lla = with_watchdog(20, lambda: geoloc.get_lonlatalt(pix, times))
